@@ -1,11 +1,24 @@
 import Ibx.Gen.Crash
 import Ibx.Model.FsSteps
 /-
-  T1 tie for C11: the facts re-read from pkg/storage/file/{mbox,fstore}.go on every run (Ibx/Gen/Crash.lean) say that
-  the source is the variant the C11 theorems are about (`Variant.safe`: index written through index.gob.tmp + rename,
-  removeDir unlinks index.gob before os.RemoveAll), that AddMessage and removeMessage issue their calls in the order
-  `addP` / `removeFoundP` encode, and that every mutation has its trace hook.  If a fix is reverted these stop checking,
-  and Props/C11 names the crash point that then fails (`original_index_write_fails`, `original_removeDir_fails`).
+  T1 tie for C11: the facts re-read from pkg/storage/file/{fstore,mbox,fmessage}.go on every run (Ibx/Gen/Crash.lean) say
+  that the source is the variant the C11 theorems are about (`Variant.safe`: index written through index.gob.tmp + rename,
+  removeDir unlinks index.gob before os.RemoveAll), that AddMessage / RemoveMessage / MarkSeen / PurgeMessages issue their
+  file-system mutations in the order `addP` / `removeP` / `seenP` / `purgeP` of Ibx/Model/FsSteps.lean encode, inside one
+  critical section of the mailbox lock (the step programs are computed from the directory state at the START of the
+  operation, so nobody else may change it in between), and that every mutation is announced by its trace hook.  If a fix
+  is reverted these stop checking, and Props/C11 names the crash point that then fails (`original_index_write_fails`,
+  `original_removeDir_fails`).
+
+  The facts are STRUCTURAL (harness/cmd/extract/crash.go): nothing depends on the name of a local variable, receiver,
+  unexported helper / field, or on where helper boundaries lie.  The extractor inlines every package-local call, evaluates
+  path expressions symbolically (`dir`, `dir/index.gob`, `dir/index.gob.tmp`, `dir/<Fid>.raw`, `parent(dir)`), recognises
+  mutations by their os / io / bufio names, hooks by `verifStep("<label>", …)`, and prints the success path of an
+  operation as a PROGRAM of tokens:  atoms,  `( a | b )` alternatives of an if / switch (sorted; `0` = nothing),
+  `{ a }*` a loop,  `[empty]` / `[nonempty]` the side of a test `len(<message list>) ⋚ 0`.  A guard clause and the
+  nested form, an if / else and its mirror image, a switch and an if-chain print alike; failure handlers
+  (`if e != nil { …; return …e… }`) are left out.  The expected programs are assembled below from the same pieces the
+  step model is assembled from.
 -/
 namespace Ibx.Tie.Crash
 open Ibx.Model.FsSteps
@@ -28,16 +41,67 @@ def sourceVariant : Option Variant :=
 
 theorem variant_tie : sourceVariant = some Variant.safe := by decide
 
-/-- AddMessage: evictions (newMessage), createDir, create / copy / flush / close of the raw, then the index -/
+/-! ### the expected programs, piece by piece (each piece = one definition of FsSteps) -/
+
+/-- createDir: `mkdirAll` unless the directory is there (`if d.isNone then [.mkdirAll] else []`) -/
+def createDirT : List String := ["(", "0", "|", "@mkdirall", "mkdirall(dir)", ")"]
+
+/-- `writeIndexP` (variant tmpRename): createDir, create index.gob.tmp, (buffered writes,) flush, close, rename over index.gob -/
+def writeIndexT : List String :=
+  createDirT ++ ["@create-tmp", "create(dir/index.gob.tmp)", "@flush-tmp", "flush(dir/index.gob.tmp)",
+    "@close-tmp", "close(dir/index.gob.tmp)", "@rename", "rename(dir/index.gob.tmp,dir/index.gob)"]
+
+/-- `removeDirP` (variant indexFirst): unlink index.gob, RemoveAll(dir), then removeDirIfEmpty of the two parent levels
+    (`parentSteps`: none, level 2, or level 2 and level 1) -/
+def removeDirT : List String :=
+  ["@unlink-index", "unlink(dir/index.gob)", "@removeall", "removeall(dir)",
+   "(", "0", "|", "@rmdir-parent", "unlink(parent(dir))", ")",
+   "(", "0", "|", "@rmdir-parent", "unlink(parent(parent(dir)))", ")"]
+
+/-- the two branches of `writeIndexAny`: `if l = [] then removeDirP else writeIndexP` -/
+def writeIndexAnyBranches : List String := ["[empty]"] ++ removeDirT ++ ["|", "[nonempty]"] ++ writeIndexT
+
+def writeIndexAnyT : List String := ["("] ++ writeIndexAnyBranches ++ [")"]
+
+/-- `removeFoundP`: writeIndexAny, then `if l' = [] then [] else [.unlinkRaw id]` — the index is rewritten BEFORE the raw file
+    is unlinked, and the raw file is left to RemoveAll when the mailbox became empty -/
+def removeFoundT : List String :=
+  writeIndexAnyT ++ ["(", "[empty]", "|", "[nonempty]", "@unlink-raw", "unlink(dir/<Fid>.raw)", ")"]
+
+/-- `removeP`: nothing when the id is not listed -/
+def removeT : List String := ["("] ++ removeFoundT ++ ["|", "0", ")"]
+
+/-- `writeRawP`: createDir, create `<id>.raw`, io.Copy through a bufio.Writer, Flush, Close -/
+def writeRawT : List String :=
+  createDirT ++ ["@create-raw", "create(dir/<Fid>.raw)", "@copy-raw", "copy(dir/<Fid>.raw)",
+    "@flush-raw", "flush(dir/<Fid>.raw)", "@close-raw", "close(dir/<Fid>.raw)"]
+
+/-- AddMessage = `addP`: under the mailbox lock — the evictions of the cap loop (`evictP`, each a removeMessage), the raw
+    file, then the index.  (The last index write can syntactically take the [empty] branch of writeIndex; the model uses
+    `writeIndexP` there because the list has just been appended to.) -/
 theorem addOrder_tie :
-    Gen.Crash.fileAddOrder = ["mb.newMessage", "mb.createDir", "os.Create", "io.Copy", "w.Flush", "file.Close", "mb.writeIndex"] := by decide
+    Gen.Crash.fileAddProg =
+      ["lock", "{"] ++ removeT ++ ["}*"] ++ writeRawT ++ writeIndexAnyT ++ ["unlock"] := by decide
 
-/-- removeMessage: the index is rewritten BEFORE the raw file is unlinked -/
-theorem removeMsgOrder_tie : Gen.Crash.fileRemoveMsgOrder = ["mb.writeIndex", "os.Remove"] := by decide
+/-- RemoveMessage = `removeP`: under the mailbox lock, the index is rewritten BEFORE the raw file is unlinked -/
+theorem removeMsgOrder_tie : Gen.Crash.fileRemoveMsgProg = ["lock"] ++ removeT ++ ["unlock"] := by decide
 
-/-- one hook per file-system mutation site (T3 sees every step) -/
+/-- MarkSeen = `seenP`: under the mailbox lock, at most one index write, inside the search loop -/
+theorem markSeenOrder_tie :
+    Gen.Crash.fileMarkSeenProg = ["lock", "{", "(", "0", "|"] ++ writeIndexAnyBranches ++ [")", "}*", "unlock"] := by decide
+
+/-- PurgeMessages = `purgeP`: under the mailbox lock, one writeIndex of the emptied list -/
+theorem purgeOrder_tie : Gen.Crash.filePurgeProg = ["lock"] ++ writeIndexAnyT ++ ["unlock"] := by decide
+
+/-- one hook immediately before every file-system mutation, and no hook without its mutation (T3 sees every step, under
+    the label the harness maps to the model's `FsStep`) -/
 theorem hookSites_tie :
-    Gen.Crash.fileHookSites = ["create-raw", "copy-raw", "flush-raw", "close-raw", "unlink-raw", "create-tmp", "flush-tmp", "close-tmp",
-      "rename", "mkdirall", "unlink-index", "removeall", "rmdir-parent"] := by decide
+    Gen.Crash.fileHookSites =
+      [("close-raw", "close(dir/<Fid>.raw)"), ("close-tmp", "close(dir/index.gob.tmp)"), ("copy-raw", "copy(dir/<Fid>.raw)"),
+       ("create-raw", "create(dir/<Fid>.raw)"), ("create-tmp", "create(dir/index.gob.tmp)"), ("flush-raw", "flush(dir/<Fid>.raw)"),
+       ("flush-tmp", "flush(dir/index.gob.tmp)"), ("mkdirall", "mkdirall(dir)"), ("removeall", "removeall(dir)"),
+       ("rename", "rename(dir/index.gob.tmp,dir/index.gob)"), ("rmdir-parent", "unlink(parent(dir))"),
+       ("rmdir-parent", "unlink(parent(parent(dir)))"), ("unlink-index", "unlink(dir/index.gob)"),
+       ("unlink-raw", "unlink(dir/<Fid>.raw)")] := by decide
 
 end Ibx.Tie.Crash
